@@ -586,6 +586,21 @@ class LoopMixin:
                         self.assume_clause(V.parse_clause(ex), f_i, dict(extra))
                     except E.PyExc:
                         pass
+            for inst in (self.contract.options.get("callee_instances", {}) if self.contract is not None else {}).get(qual, []):
+                # the CALLER asks for further instances of the callee's universally quantified ghosts, with expressions over the caller's own state
+                f_i = E.Frame("<spec>", ci, dict(sframe.locals), None, "callee-spec")
+                cf = self.inv_frame(getattr(self, "root_frame", None), {}) if getattr(self, "root_frame", None) is not None else self.spec_frame
+                self.pure += 1
+                try:
+                    vals = {g_: self.eval(V.parse_clause(ex_), cf) for g_, ex_ in inst.items()}
+                finally:
+                    self.pure -= 1
+                f_i.locals.update(vals)
+                for lbl, ex in list(cc.ensures.items()) + list(cc.always.items()):
+                    try:
+                        self.assume_clause(V.parse_clause(ex), f_i, dict(extra))
+                    except E.PyExc:
+                        pass
             if cc.use_invariants:
                 rcls = run.rec(recv.oid).cls
                 for lbl, ex in V.class_clauses(self.reg.invariants, rcls):
